@@ -76,6 +76,7 @@ def enc_consts(ctx, path, callee):
 def run(ctx):
     # string literals inside a field section: the Huffman table walk is shared with C15
     _c15.huffman_decode_rows(ctx, "C11-c")
+    _c15.huffman_errors_propagate(ctx, "C11-c")
     prog = ctx.prog
     consts = prog.consts
 
@@ -92,6 +93,18 @@ def run(ctx):
         nbad += not ok
         ctx.check(ok, "C11-a", Q + "static_::PREDEFINED_HEADERS", "entry %d = RFC 9204 Appendix A" % i,
                   "static table entry %d is %s, RFC 9204 Appendix A has %s" % (i, got, want), "%s: %s" % (want[0].decode(), want[1].decode()))
+    for fn_ in ("find", "find_name"):
+        b_ = ru.need(ctx, "C11-a", Q + "static_::StaticTable::" + fn_)
+        if b_:
+            callees = sorted({t.ckey or "?" for bb, t in b_.all_terms() if t.t == "call"})
+            okc = not [k for k in callees if k.startswith(("h3", "<h3"))]
+            ctx.check(okc, "C11-a", b_.key, "the lookup is the literal table and nothing else (no calls into the workspace)",
+                      "StaticTable::%s calls %s: a shortcut around the literal table can answer an index whose entry is not the field asked for, and "
+                      "the peer then decodes a different field" % (fn_, [k for k in callees if k.startswith(("h3", "<h3"))]), str(callees)[:200])
+            n_some = sum(1 for bb, i, s_ in b_.all_stmts() if s_.s == "assign" and s_.rv.rv == "aggregate" and s_.rv.variant == "Some")
+            arms = [sum(1 for pat, g, body in m if isinstance(body, tuple) and body[:2] == ("call", "core::option::Option::Some")) for m in tables.match_tables(prog, b_.key)]
+            ctx.check(len(arms) == 1 and n_some == arms[0], "C11-a", b_.key, "every Some(index) the lookup can answer is an arm of the literal table",
+                      "StaticTable::%s builds Some(..) at %d places but its literal table has %s arms answering Some: an answer is produced outside the table" % (fn_, n_some, arms), "%d" % n_some)
     ms = tables.match_tables(prog, Q + "static_::StaticTable::find")
     if len(ms) != 1:
         ctx.missing("C11-a", Q + "static_::StaticTable::find literal table")
